@@ -291,8 +291,9 @@ Proof.
   set (p := mkop cb all len 0 false).
   set (o0 := if w then with_wr o (Some p) (o_evW o) (o_reg o) else with_rd o (Some p) (o_evR o) (o_reg o)).
   assert (Ho0 : okp o0) by (unfold o0; destruct w; apply (okp_same o); try reflexivity; exact (okp_lookup _ _ _ Hp Hl)).
-  set (s0 := add_log s (LStart cb i w all len)).
-  assert (Hf0 : frame b s s0) by (apply frame_add_log; [exact Hp|exact I]).
+  set (s0 := note_overlap (add_log s (LStart cb i w all len)) (if w then o_evW o else o_evR o)).
+  assert (Hf0 : frame b s s0).
+  { eapply frame_trans; [apply (frame_add_log b s (LStart cb i w all len)); [exact Hp|exact I]|]. apply frame_same; try reflexivity. exact Hp. }
   change (l_disp s0) with (l_disp s).
   destruct (l_disp s <? sonic_MaxCallbackDispatch) eqn:Ed.
   - pose proof (frame_set_obj b s0 i o0 (frame_pollable _ _ _ Hf0) Ho0) as Hf1.
@@ -517,7 +518,7 @@ Proof. induction batch; cbn; constructor; [exact I|assumption]. Qed.
 Theorem lstep_idle s o : idle s -> chain_lop o -> l_fuel_out (lstep s o) = false -> idle (lstep s o).
 Proof.
   intros (I1 & I2 & I3 & I4 & I5) Hc. unfold lstep.
-  set (s1 := mkloop (l_pending s) (l_disp s) (l_posts s) (l_objs s) (l_tmrs s) (l_progs s) (l_now s) (l_depth s) (l_log s) (l_fuel_out s) 300).
+  set (s1 := mkloop (l_pending s) (l_disp s) (l_posts s) (l_objs s) (l_tmrs s) (l_progs s) (l_now s) (l_depth s) (l_log s) (l_fuel_out s) 300 (l_overlap s)).
   assert (J1 : pollable s1) by exact I1.
   assert (Hb : Z.max 0 (sonic_MaxCallbackDispatch - l_disp s1) + 1 <= dbound) by (change (l_disp s1) with (l_disp s); unfold dbound, sonic_MaxCallbackDispatch; lia).
   assert (Hd0 : 0 <= l_disp s1) by exact I4.
